@@ -20,14 +20,14 @@ var tpmDigest = map[uint16]int{0x0004: 20, 0x000B: 32, 0x000C: 48, 0x000D: 64, 0
 
 // accepted attribute words from Intel TXT SDG table J-2 as the code states them (explicit bit patterns)
 const (
-	aPPWrite = 1 << 0
-	aOwnerWrite = 1 << 1
-	aPolicyWrite = 1 << 3
-	aPolicyDelete = 1 << 10
-	aWriteSTClear = 1 << 14
-	aAuthRead = 1 << 18
-	aNoDA = 1 << 25
-	aWritten = 1 << 29
+	aPPWrite        = 1 << 0
+	aOwnerWrite     = 1 << 1
+	aPolicyWrite    = 1 << 3
+	aPolicyDelete   = 1 << 10
+	aWriteSTClear   = 1 << 14
+	aAuthRead       = 1 << 18
+	aNoDA           = 1 << 25
+	aWritten        = 1 << 29
 	aPlatformCreate = 1 << 30
 )
 
